@@ -1,119 +1,567 @@
 package main
 
 import (
+	"fmt"
+	"go/types"
 	"strings"
 
 	"golang.org/x/tools/go/ssa"
 )
 
-// c37RemoveIdentity: forwardList.remove must close the channel of the entry
-// that matched (network, addr) — not of whatever occupies that slot after the
-// list was compacted. Either the channel is read from a value copy of the
-// matched entry (the copy whose network/addr fields were compared), or, when
-// it is read through a pointer into the slice, that read happens before any
-// write to the slice's elements or to the entries field.
-func c37RemoveIdentity(c *Ctx) {
-	f := c.fn("ssh", "(*forwardList).remove")
-	if f == nil {
-		return
-	}
-	cl := calls(f, nameIs("builtin:close"))
-	if len(cl) != 1 {
-		return // reported by C37.close-entry
-	}
-	ch := cl[0].Common().Args[0]
-	// the compared entry: operand of the network / addr comparisons
-	var cmpBases []ssa.Value
-	allInstrs(f, func(in ssa.Instruction) {
-		bo, ok := in.(*ssa.BinOp)
-		if !ok {
-			return
+// c37b.go: the forward list and the listeners' Accept decided by EVALUATION
+// (c37_interp.go). A world is a zero forwardList on which the module's own add
+// registers a few listeners; forward / remove / closeAll are then run on it and
+// what they DO is compared with the specification:
+//
+//   forward(n, a)  delivers exactly one value, carrying the request's channel
+//                  and remote address, to the channel add returned for exactly
+//                  (n, a), and reports true; without such a listener it delivers
+//                  nothing and reports false;
+//   remove(n, a)   closes exactly the channel add returned for (n, a), while the
+//                  list lock is held, and drops that entry and no other: later
+//                  forwards for (n, a) report false, all other listeners still
+//                  receive theirs, a second remove and a later closeAll do not
+//                  close it again;
+//   closeAll       closes every registered channel exactly once under the lock
+//                  and drops all entries;
+//   every call returns with the list lock released.
+//
+// Nothing here looks at the shape of the code (loops, helpers, index vs range
+// copies, slices.Delete/IndexFunc, names of locals, fields or receivers).
+
+type c37key struct{ network, addr string }
+
+func (k c37key) String() string { return fmt.Sprintf("(%q, %q)", k.network, k.addr) }
+
+type c37fns struct {
+	add, remove, closeAll, forward *ssa.Function
+	listT                          *types.Named
+}
+
+type c37world struct {
+	fns  *c37fns
+	it   *c37iinterp
+	cell *c37ival
+	mus  map[*c37ival]bool
+	reg  []c37key
+	ch   []*c37ichan
+}
+
+const (
+	c37TokCh    = "C37-REQUEST-CHANNEL"
+	c37TokRaddr = "C37-REMOTE-ADDR"
+)
+
+type c37outcome struct {
+	res  c37ival
+	evs  []c37ievent
+	end  string
+	why  string
+	left bool // a list mutex is still held after the call returned
+}
+
+func (o *c37outcome) of(kind string) []c37ievent {
+	var out []c37ievent
+	for _, e := range o.evs {
+		if e.kind == kind {
+			out = append(out, e)
 		}
-		for _, side := range []ssa.Value{bo.X, bo.Y} {
-			if _, fld, base, okf := fieldOf(side); okf && (fld == "network" || fld == "addr") {
-				cmpBases = append(cmpBases, base)
+	}
+	return out
+}
+
+// args builds the argument list of a forwardList method by parameter TYPE:
+// the receiver, then the string parameters in order (network, address), the
+// net.Addr and the NewChannel.
+func (w *c37world) args(fn *ssa.Function, k c37key) ([]c37ival, string) {
+	strs := []string{k.network, k.addr}
+	var out []c37ival
+	for i, p := range fn.Params {
+		if i == 0 {
+			out = append(out, w.cell)
+			continue
+		}
+		t := p.Type()
+		if b, ok := t.Underlying().(*types.Basic); ok && b.Info()&types.IsString != 0 {
+			if len(strs) == 0 {
+				return nil, "more than two string parameters"
+			}
+			out = append(out, strs[0])
+			strs = strs[1:]
+			continue
+		}
+		if _, ok := t.Underlying().(*types.Interface); ok {
+			switch typeName(t) {
+			case "NewChannel":
+				out = append(out, c37iiface{t: types.Typ[types.String], v: c37TokCh})
+				continue
+			case "Addr":
+				out = append(out, c37iiface{t: types.Typ[types.String], v: c37TokRaddr})
+				continue
 			}
 		}
-	})
-	// writes to the list
-	isEntries := func(v ssa.Value) bool {
-		for i := 0; i < 6; i++ {
-			switch x := v.(type) {
-			case *ssa.IndexAddr:
-				v = x.X
-			case *ssa.Slice:
-				v = x.X
-			case *ssa.UnOp:
-				if strings.HasSuffix(accessPath(x.X), ".entries") {
-					return true
+		return nil, "parameter " + p.Name() + " of type " + t.String() + " has no role in the model"
+	}
+	if len(strs) == 2 && len(fn.Params) > 1 {
+		return nil, "no (network, address) string parameters"
+	}
+	return out, ""
+}
+
+func (w *c37world) call(fn *ssa.Function, k c37key) *c37outcome {
+	args, why := w.args(fn, k)
+	if why != "" {
+		return &c37outcome{end: "undecided", why: why}
+	}
+	mark := len(w.it.events)
+	o := &c37outcome{}
+	o.res, o.end, o.why = w.it.run(fn, args)
+	o.evs = append(o.evs, w.it.events[mark:]...)
+	if o.end == "return" {
+		for m := range w.mus {
+			if w.it.locked[m] {
+				o.left = true
+			}
+		}
+	}
+	return o
+}
+
+func (w *c37world) underListLock(e c37ievent) bool {
+	for _, m := range e.held {
+		if w.mus[m] {
+			return true
+		}
+	}
+	return false
+}
+
+func (w *c37world) owner(ch *c37ichan) string {
+	for i, c := range w.ch {
+		if c == ch {
+			return "the listener registered for " + w.reg[i].String()
+		}
+	}
+	return "a channel no listener reads"
+}
+
+func (w *c37world) index(k c37key) []int {
+	var out []int
+	for i, r := range w.reg {
+		if r == k {
+			out = append(out, i)
+		}
+	}
+	return out
+}
+
+// c37NewWorld registers reg on a zero list with the module's add. addBad is
+// the first deviation of add from "returns a fresh, open, empty channel with
+// room for at least one forward and releases the lock".
+func c37NewWorld(c *Ctx, fns *c37fns, reg []c37key) (w *c37world, addBad string) {
+	w = &c37world{fns: fns, it: c37inewInterp(c.ld.prog), mus: map[*c37ival]bool{}}
+	w.cell = new(c37ival)
+	*w.cell = c37izero(fns.listT)
+	if st, ok := fns.listT.Underlying().(*types.Struct); ok {
+		if sv, ok := (*w.cell).(c37istruct); ok {
+			for i := 0; i < st.NumFields(); i++ {
+				switch st.Field(i).Type().String() {
+				case "sync.Mutex", "sync.RWMutex":
+					w.mus[&sv[i]] = true
 				}
-				return false
-			default:
-				return false
 			}
 		}
+	}
+	for _, k := range reg {
+		o := w.call(fns.add, k)
+		what := "add" + k.String()
+		if o.end != "return" {
+			return w, what + " does not return: " + o.end + ": " + o.why
+		}
+		ch, _ := o.res.(*c37ichan)
+		switch {
+		case ch == nil:
+			return w, what + " does not return a channel"
+		case ch.closed:
+			return w, what + " returns a closed channel"
+		case ch.cap < 1:
+			return w, what + " returns an unbuffered channel: forward blocks under the list lock until Accept runs"
+		case len(ch.buf) != 0:
+			return w, what + " returns a channel that already holds a value"
+		case o.left:
+			return w, what + " returns with the list lock held: every later call on the list hangs"
+		}
+		fresh := false
+		for _, e := range o.of("makechan") {
+			if e.ch == ch {
+				fresh = true
+			}
+		}
+		for _, prev := range w.ch {
+			if prev == ch {
+				fresh = false
+			}
+		}
+		if !fresh {
+			return w, what + " does not create a fresh channel for this registration"
+		}
+		w.reg = append(w.reg, k)
+		w.ch = append(w.ch, ch)
+	}
+	return w, ""
+}
+
+func c37Carries(v c37ival, tok string, depth int) bool {
+	if depth > 6 {
 		return false
 	}
-	var muts []ssa.Instruction
-	allInstrs(f, func(in ssa.Instruction) {
-		switch x := in.(type) {
-		case *ssa.Store:
-			if ia, ok := x.Addr.(*ssa.IndexAddr); ok && isEntries(ia.X) {
-				muts = append(muts, x)
-			}
-			if strings.HasSuffix(accessPath(x.Addr), ".entries") {
-				muts = append(muts, x)
-			}
-		case *ssa.Call:
-			n := calleeName(&x.Call)
-			if (n == "builtin:append" || n == "builtin:copy") && isEntries(x.Call.Args[0]) {
-				muts = append(muts, x)
-			}
-		}
-	})
-	sameBase := func(b ssa.Value) bool {
-		for _, cb := range cmpBases {
-			if cb == b {
+	switch x := v.(type) {
+	case string:
+		return x == tok
+	case c37iiface:
+		return x.t != nil && c37Carries(x.v, tok, depth+1)
+	case c37istruct:
+		for _, f := range x {
+			if c37Carries(f, tok, depth+1) {
 				return true
 			}
-			// two IndexAddr over the same slice value and index
-			if ia, ok := b.(*ssa.IndexAddr); ok {
-				if sameIndexAddr(cb, ia) {
-					return true
+		}
+	case *c37ival:
+		return x != nil && c37Carries(*x, tok, depth+1)
+	}
+	return false
+}
+
+// checkForward: forward(k) on w against the specification; allowed lists the
+// registry indices that may receive it (nil: none). Returns deviations of the
+// delivery (match) and of the reported result separately, and where.
+func (w *c37world) checkForward(k c37key, allowed []int) (match, result string, at ssa.Instruction, got int) {
+	o := w.call(w.fns.forward, k)
+	what := "forward" + k.String()
+	got = -1
+	if o.end != "return" {
+		for _, e := range o.evs {
+			if e.at != nil {
+				at = e.at
+			}
+		}
+		return what + " does not return: " + o.end + ": " + o.why, "", at, got
+	}
+	sends := o.of("send")
+	for _, e := range o.evs {
+		if e.kind == "close" {
+			return what + " closes the channel of " + w.owner(e.ch), "", e.at, got
+		}
+	}
+	if o.left {
+		return what + " returns with the list lock held: Listener.Close hangs in remove", "", nil, got
+	}
+	ok, isBool := o.res.(bool)
+	if !isBool {
+		return "", what + " does not report a boolean result", nil, got
+	}
+	if len(allowed) == 0 {
+		if len(sends) > 0 {
+			return what + " is delivered to " + w.owner(sends[0].ch) + " although no listener is registered for exactly this network and address", "", sends[0].at, got
+		}
+		if ok {
+			result = what + " reports success without delivering (no listener is registered for it): the peer's channel is neither accepted nor rejected"
+		}
+		return "", result, nil, got
+	}
+	if len(sends) == 0 {
+		if ok {
+			result = what + " reports success without delivering"
+		}
+		return what + " is not delivered to " + w.owner(w.ch[allowed[0]]), result, nil, got
+	}
+	if len(sends) > 1 {
+		return what + " is delivered more than once", "", sends[1].at, got
+	}
+	for _, i := range allowed {
+		if w.ch[i] == sends[0].ch {
+			got = i
+		}
+	}
+	if got < 0 {
+		return what + " is delivered to " + w.owner(sends[0].ch) + ", not to a listener registered for exactly this network and address", "", sends[0].at, got
+	}
+	if !c37Carries(sends[0].val, c37TokCh, 0) || !c37Carries(sends[0].val, c37TokRaddr, 0) {
+		return what + " delivers a value that does not carry the request's channel and remote address", "", sends[0].at, got
+	}
+	if !ok {
+		result = what + " reports false after delivering: the channel is handed to the listener AND rejected"
+	}
+	return "", result, sends[0].at, got
+}
+
+// checkCloses: the close events of o are exactly the channels want (each once,
+// under the list lock) and nothing is sent.
+func (w *c37world) checkCloses(what string, o *c37outcome, want map[*c37ichan]bool) (string, ssa.Instruction) {
+	if o.end != "return" {
+		var at ssa.Instruction
+		for _, e := range o.evs {
+			if e.at != nil {
+				at = e.at
+			}
+		}
+		return what + " does not return: " + o.end + ": " + o.why, at
+	}
+	seen := map[*c37ichan]bool{}
+	for _, e := range o.evs {
+		switch e.kind {
+		case "send":
+			return what + " sends on the channel of " + w.owner(e.ch), e.at
+		case "close":
+			if !want[e.ch] {
+				missing := ""
+				for c := range want {
+					missing = "; the channel of " + w.owner(c) + " stays open and its Accept blocks forever"
+				}
+				return what + " closes the channel of " + w.owner(e.ch) + missing, e.at
+			}
+			if seen[e.ch] {
+				return what + " closes a channel twice", e.at
+			}
+			seen[e.ch] = true
+			if len(w.mus) == 0 {
+				return what + ": the list has no mutex field, 'under the lock' cannot be observed", e.at
+			}
+			if !w.underListLock(e) {
+				return what + " closes the channel of " + w.owner(e.ch) + " without holding the list lock (a concurrent forward can send on the closed channel)", e.at
+			}
+		}
+	}
+	for c := range want {
+		if !seen[c] {
+			return what + " does not close the channel of " + w.owner(c) + ": its Accept blocks forever", nil
+		}
+	}
+	if o.left {
+		return what + " returns with the list lock held", nil
+	}
+	return "", nil
+}
+
+func c37Scenarios(c *Ctx) {
+	fns := &c37fns{
+		add:      c.fn("ssh", "(*forwardList).add"),
+		remove:   c.fn("ssh", "(*forwardList).remove"),
+		closeAll: c.fn("ssh", "(*forwardList).closeAll"),
+		forward:  c.fn("ssh", "(*forwardList).forward"),
+		listT:    c.namedType("ssh", "forwardList"),
+	}
+	if fns.add == nil || fns.remove == nil || fns.closeAll == nil || fns.forward == nil || fns.listT == nil {
+		return
+	}
+	reg := []c37key{{"tcp", "a:1"}, {"unix", "a:1"}, {"tcp", "b:2"}, {"unix", "/s"}}
+	reqs := append(append([]c37key{}, reg...), c37key{"tcp", "/s"}, c37key{"unix", "b:2"}, c37key{"tcp", "c:3"}, c37key{"udp", "a:1"}, c37key{"", ""})
+	regText := fmt.Sprint(reg)
+
+	// ---- add
+	_, addBad := c37NewWorld(c, fns, reg)
+	c.check(addBad == "", "C37.add", "(*forwardList).add", fns.add, "every registration gets a fresh, open, empty channel with room for a forward; the lock is released (evaluated)", addBad)
+	if addBad != "" {
+		return
+	}
+	first := func(dst *string, dstAt *ssa.Instruction, s string, at ssa.Instruction) {
+		if *dst == "" && s != "" {
+			*dst = s
+			if at != nil {
+				*dstAt = at
+			}
+		}
+	}
+	at := func(in ssa.Instruction, f *ssa.Function) poser {
+		if in != nil {
+			return in
+		}
+		return f
+	}
+
+	// ---- forward: exact delivery, truthful result
+	var fwdBad, resBad string
+	var fwdAt, resAt ssa.Instruction
+	for _, q := range reqs {
+		w, _ := c37NewWorld(c, fns, reg)
+		m, r, where, _ := w.checkForward(q, w.index(q))
+		first(&fwdBad, &fwdAt, m, where)
+		first(&resBad, &resAt, r, where)
+	}
+	ctxt := " (listeners registered for " + regText + ")"
+	c.check(fwdBad == "", "C37.match", "(*forwardList).forward", at(fwdAt, fns.forward), fmt.Sprintf("a forward is delivered to the listener registered for exactly its network AND address, otherwise to nobody (%d requests evaluated)", len(reqs)), fwdBad+ctxt)
+	c.check(resBad == "" && fwdBad == "", "C37.match", "(*forwardList).forward result", at(resAt, fns.forward), "reports true exactly when it delivered", resBad+fwdBad+ctxt)
+
+	// ---- remove: closes exactly the matching entry's channel, drops exactly that entry
+	var rmBad, dropBad, idBad string
+	var rmAt, dropAt, idAt ssa.Instruction
+	for _, q := range reqs {
+		w, _ := c37NewWorld(c, fns, reg)
+		want := map[*c37ichan]bool{}
+		for _, i := range w.index(q) {
+			want[w.ch[i]] = true
+		}
+		what := "remove" + q.String()
+		o := w.call(fns.remove, q)
+		s, where := w.checkCloses(what, o, want)
+		if s != "" {
+			// which fact is it: nothing closed / somebody else's channel closed
+			wrong := false
+			for _, e := range o.of("close") {
+				if !want[e.ch] {
+					wrong = true
 				}
 			}
+			if wrong && len(want) > 0 {
+				first(&idBad, &idAt, s, where)
+			} else if wrong {
+				first(&rmBad, &rmAt, s+" although no listener is registered for exactly this network and address", where)
+			} else {
+				first(&dropBad, &dropAt, s, where)
+			}
+			continue
 		}
-		return false
-	}
-	ok, why := false, ""
-	switch x := ch.(type) {
-	case *ssa.Field:
-		// value copy of the entry
-		ok = sameBase(x.X)
-		if !ok {
-			why = "the closed channel belongs to a different entry value than the one compared"
-		}
-	case *ssa.UnOp:
-		_, fld, base, okf := fieldOf(x)
-		if !okf || fld != "c" || !sameBase(base) {
-			why = "the closed channel is not field c of the compared entry"
-			break
-		}
-		ok = true
-		if _, isLocal := base.(*ssa.Alloc); isLocal {
-			// a local value copy of the entry (the range variable): later writes
-			// to the list cannot change it
-			break
-		}
-		for _, m := range muts {
-			before := m.Block() == x.Block() && precedes(m, x) || m.Block() != x.Block() && m.Block().Dominates(x.Block())
-			if before {
-				ok = false
-				why = "the channel is read through a pointer into the list AFTER the list was rewritten: the slot may by then hold another listener's entry, whose channel gets closed while the removed listener's Accept blocks forever"
+		// the entry is dropped, all others stay
+		for _, r := range reg {
+			var allowed []int
+			if r != q {
+				allowed = w.index(r)
+			}
+			m, res, where, _ := w.checkForward(r, allowed)
+			if m == "" {
+				m = res
+			}
+			if m != "" {
+				first(&dropBad, &dropAt, "after "+what+": "+m, where)
 			}
 		}
-	default:
-		why = "cannot identify the entry whose channel is closed"
+		// a second Close and the connection teardown do not close it again
+		o2 := w.call(fns.remove, q)
+		s, where = w.checkCloses("a second "+what, o2, nil)
+		first(&dropBad, &dropAt, s, where)
+		rest := map[*c37ichan]bool{}
+		for i, r := range reg {
+			if r != q {
+				rest[w.ch[i]] = true
+			}
+		}
+		o3 := w.call(fns.closeAll, c37key{})
+		s, where = w.checkCloses("closeAll after "+what, o3, rest)
+		first(&dropBad, &dropAt, s, where)
 	}
-	c.check(ok && len(cmpBases) >= 2, "C37.close-entry", "remove closes the matched entry's channel", cl[0], "the closed channel is the matched entry's (read from the compared entry before the list is compacted)", why)
+	// two listeners under one key: one is removed, the other keeps receiving
+	dup := []c37key{{"tcp", "a:1"}, {"tcp", "a:1"}, {"unix", "a:1"}}
+	if w, bad := c37NewWorld(c, fns, dup); bad == "" {
+		q := dup[0]
+		o := w.call(fns.remove, q)
+		cl := o.of("close")
+		if o.end != "return" || len(cl) == 0 {
+			first(&dropBad, &dropAt, fmt.Sprintf("remove%s with two listeners registered under that key closes no channel (%s %s): Accept of the closed listener blocks forever", q, o.end, o.why), nil)
+		} else if len(cl) != 1 || cl[0].ch != w.ch[0] && cl[0].ch != w.ch[1] {
+			first(&idBad, &idAt, fmt.Sprintf("remove%s with two listeners registered under that key: %d channels closed, the first belongs to %s; want exactly one of the two", q, len(cl), w.owner(cl[0].ch)), cl[0].at)
+		} else {
+			other := 0
+			if cl[0].ch == w.ch[0] {
+				other = 1
+			}
+			m, res, where, _ := w.checkForward(q, []int{other})
+			if m == "" {
+				m = res
+			}
+			if m != "" {
+				first(&dropBad, &dropAt, "after remove"+q.String()+" of one of two listeners under that key: "+m, where)
+			}
+		}
+	}
+	c.check(rmBad == "" && idBad == "", "C37.match", "(*forwardList).remove", at(rmAt, fns.remove), "an entry is selected exactly when both network and address are equal to the request's (evaluated)", rmBad+idBad+ctxt)
+	c.check(idBad == "", "C37.close-entry", "remove closes the matched entry's channel", at(idAt, fns.remove), "the closed channel is the one add returned for exactly that (network, address)", idBad+ctxt)
+	c.check(dropBad == "", "C37.close-entry", "(*forwardList).remove", at(dropAt, fns.remove), "closes the entry's channel under the lock and drops exactly that entry (later forwards, a second remove and closeAll evaluated)", dropBad+ctxt)
+
+	// ---- closeAll
+	var caBad string
+	var caAt ssa.Instruction
+	{
+		w, _ := c37NewWorld(c, fns, reg)
+		all := map[*c37ichan]bool{}
+		for _, ch := range w.ch {
+			all[ch] = true
+		}
+		s, where := w.checkCloses("closeAll", w.call(fns.closeAll, c37key{}), all)
+		first(&caBad, &caAt, s, where)
+		if s == "" {
+			for _, r := range reg {
+				m, res, where, _ := w.checkForward(r, nil)
+				if m == "" {
+					m = res
+				}
+				if m != "" {
+					first(&caBad, &caAt, "after closeAll: "+m, where)
+				}
+			}
+			s, where = w.checkCloses("a second closeAll", w.call(fns.closeAll, c37key{}), nil)
+			first(&caBad, &caAt, s, where)
+		}
+	}
+	c.check(caBad == "", "C37.close-entry", "(*forwardList).closeAll", at(caAt, fns.closeAll), "closes every registered channel exactly once under the lock and drops all entries", caBad+ctxt)
 }
+
+// c37Accept: Accept of a listener whose forward channel is closed returns an
+// error (does not block, does not panic, does not return a nil error).
+func c37Accept(c *Ctx, typ string) {
+	name := "(*" + typ + ").Accept"
+	f := c.fn("ssh", name)
+	T := c.namedType("ssh", typ)
+	if f == nil || T == nil {
+		return
+	}
+	st, _ := T.Underlying().(*types.Struct)
+	it := c37inewInterp(c.ld.prog)
+	cell := new(c37ival)
+	*cell = c37izero(T)
+	sv, _ := (*cell).(c37istruct)
+	n := 0
+	for i := 0; st != nil && sv != nil && i < st.NumFields(); i++ {
+		if ct, ok := st.Field(i).Type().Underlying().(*types.Chan); ok {
+			ch := it.newChan(1, ct.Elem())
+			ch.closed = true
+			sv[i] = ch
+			n++
+		}
+	}
+	if n == 0 {
+		c.fail("C37.accept-after-close", name, f, "the listener type has no channel field: the rule cannot be evaluated")
+		return
+	}
+	res, end, why := it.run(f, []c37ival{cell})
+	bad := ""
+	var at poser = f
+	for _, e := range it.events {
+		if e.at != nil {
+			at = e.at
+		}
+	}
+	switch end {
+	case "return":
+		t, ok := res.(c37ituple)
+		if !ok || len(t) == 0 {
+			bad = "Accept does not return (conn, error)"
+			break
+		}
+		e, ok := t[len(t)-1].(c37iiface)
+		if !ok {
+			bad = "the error Accept returns on a closed channel is outside the model"
+		} else if e.t == nil {
+			bad = "Accept does not turn a closed channel into an error (it returns a nil error)"
+		}
+	case "blocks":
+		bad = "Accept does not turn a closed channel into an error: it blocks (" + why + ")"
+	case "panic":
+		bad = "Accept does not turn a closed channel into an error: it goes on with the zero forward and panics (" + why + ")"
+	default:
+		c.undecided("C37.accept-after-close", name, at, "evaluation of Accept on a closed channel stopped: "+why)
+		return
+	}
+	c.check(bad == "", "C37.accept-after-close", name, at, "a closed forward channel makes Accept return an error (evaluated)", bad)
+}
+
+var _ = strings.HasPrefix
